@@ -711,7 +711,9 @@ class DataIndex(BaseDataIndex, MutableMapping[DataIndexKey, DataIndexEntry]):
             return
 
         entry.loaded = True
-        del self._trie[key]
+        # NOTE: overwrite in place. Deleting the key first would prune the node
+        # of a directory that turned out to be empty, which breaks an iteration
+        # over its parent that is in progress (lazy loading during iteritems).
         self._trie[key] = entry
         self._trie.commit()
 
